@@ -279,8 +279,10 @@ def check_cell_veto(case):
                 cell = by_ident[acell]
                 centre = [(cell.cell_min[d] + cell.cell_max[d]) / 2 for d in range(dim)]
                 for direction in range(dim):
-                    for sign in (1.0, -1.0):
-                        total = sum(max(est.bound(o, direction, sign < 0), 0.0) for o in offsets)
+                    # charges of magnitude != 1 (water: 0.41 / -0.82) on the first active cells: the total rate and the
+                    # stored bound both carry the estimator's charge correction factor (here |charge|)
+                    for sign in (1.0, -1.0) + ((0.41, -0.82) if acell in active_cells[:2] else ()):
+                        total = abs(sign) * sum(max(est.bound(o, direction, sign < 0), 0.0) for o in offsets)
                         # enumerate walker answers: every row x {low u, high u}
                         nrows = len(offsets)  # upper bound on the number of rows
                         for row in range(nrows):
@@ -331,7 +333,7 @@ def check_cell_veto(case):
                                         % (acell, direction, sign, t, want_dt))
                                 # confirmation threshold (only for a subset: first active cells)
                                 if acell in active_cells[:2] and u == 0.3:
-                                    bound = est.bound(off, direction, sign < 0)
+                                    bound = abs(sign) * est.bound(off, direction, sign < 0)
                                     q = 0.37 * bound
                                     tc = by_ident[want_cell]
                                     tpos = [(tc.cell_min[d] + tc.cell_max[d]) / 2 for d in range(dim)]
